@@ -683,3 +683,68 @@ def same_length_variant(draw, order, used, extras):
         k = draw(st.integers(1, len(order) - 1))
         out = order[k:] + order[:k]
     return out if out != order else None
+
+
+@st.composite
+def bigmag(draw):
+    """(env, recipe, order, points): power / product / exp terms evaluated at points of LARGE magnitude, where true first and
+    second derivatives reach 1e16 .. 1e60 but everything stays finite (a clamp or 'sanitiser' must leave them alone)"""
+    env = {"scalars": [{"name": "x"}, {"name": "y"}], "vectors": [{"name": "v", "n": 3}], "matrices": [], "params": []}
+    X, Y, Vv = ["var", "x"], ["var", "y"], ["vvar", "v"]
+
+    def pw(a, k):
+        return ["bin", "**", a, ["const", "pyint", k]]
+    pool = [
+        ["bin", "*", pw(X, draw(st.integers(3, 6))), Y],
+        pw(Y, 6),
+        ["vsum", ["vpow", Vv, draw(st.sampled_from([3, 4, 5]))]],
+        ["bin", "*", ["const", "pyfloat", draw(st.sampled_from([2.0, -3.0, 0.5]))], ["bin", "*", pw(X, 2), pw(Y, draw(st.integers(2, 4)))]],
+        ["un", "exp", X],
+        ["bin", "*", ["elem", Vv, 0], pw(["elem", Vv, 2], 5)],
+    ]
+    k = draw(st.integers(1, 3))
+    recipe = None
+    for t in [draw(st.sampled_from(pool)) for _ in range(k)]:
+        recipe = t if recipe is None else ["bin", draw(st.sampled_from(["+", "-"])), recipe, t]
+    names = ["x", "y", "v[0]", "v[1]", "v[2]"]
+    order = list(draw(st.permutations(names)))
+    pts = []
+    for _ in range(3):
+        mag = draw(st.sampled_from([1.0, 30.0, 2e4, 1e6, 1e9]))
+        pt = {n: draw(st.sampled_from([1.0, -1.0, 1.5, 0.5, -2.0])) * mag for n in names}
+        if any(nd[0] == "un" for nd in walk_recipe(recipe)):
+            pt["x"] = float(draw(st.sampled_from([3.0, 38.5, 41.0, 45.0, 60.0])))   # exp(x): 1e16 is passed near x = 37
+        pts.append(pt)
+    return env, recipe, order, pts
+
+
+def walk_recipe(r):
+    if isinstance(r, list):
+        if r and isinstance(r[0], str):
+            yield r
+        for c in r:
+            yield from walk_recipe(c)
+
+
+@st.composite
+def wide(draw):
+    """(env, recipe, order, points): 64-70 variables, a general (non fast-path) expression with non-zero diagonal and
+    off-diagonal second derivatives - the sizes at which size-gated branches start"""
+    n = draw(st.sampled_from([64, 65, 70]))
+    env = {"scalars": [], "vectors": [{"name": "x", "n": n}], "matrices": [], "params": []}
+    Xv = ["vvar", "x"]
+    terms = []
+    for _ in range(draw(st.integers(2, 4))):
+        i, j = draw(st.integers(0, n - 1)), draw(st.integers(0, n - 1))
+        terms.append(draw(st.sampled_from([
+            ["bin", "*", ["bin", "**", ["elem", Xv, i], ["const", "pyint", 2]], ["elem", Xv, j]],
+            ["bin", "**", ["elem", Xv, i], ["const", "pyint", 3]],
+            ["bin", "*", ["elem", Xv, i], ["elem", Xv, j]],
+            ["un", "sin", ["bin", "*", ["elem", Xv, i], ["elem", Xv, j]]],
+        ])))
+    recipe = terms[0]
+    for t in terms[1:]:
+        recipe = ["bin", "+", recipe, t]
+    order = [f"x[{i}]" for i in range(n)]
+    pts = [{nm: draw(st.sampled_from([1.0, -1.0, 1.5, 0.5, -2.0, 0.25])) for nm in order} for _ in range(2)]
+    return env, recipe, order, pts
